@@ -25,14 +25,15 @@ from vlib.core import digest
 
 PROPERTY = "C10"
 LEVEL = "exploration"
-RULE = ("Documents = 19 feature shapes (plain scenarios, outlines with 0-2 examples blocks of 0-3 rows, rules with and "
+RULE = ("Documents = 23 feature shapes (plain scenarios, outlines with 0-2 examples blocks of 0-3 rows, rules with and "
         "without background, empty rule, outline without examples, @setup/@teardown scenarios and outline; 4 shapes with DUPLICATE names: two scenarios 'Alpha', unnamed "
         "'Scenario:' entries, two outlines generating identical row names, same-named rules and scenarios across "
-        "rules) x 5 layouts "
+        "rules; 4 shapes with @setup/@teardown on the feature, on rules, on an outline and on one examples block) "
+        "x 5 layouts "
         "(tight / blank / comment / blank+comment+tab-indent / tags on two lines with trailing comment, comment between "
         "tag and keyword, blank lines between table rows) x 2 headers (none / language comment + two feature tag lines + "
-        "description) = 190: 16 of them (quick) / all (thorough) for the multi-location sweeps. Per document: every single line 0..last+3 and the bare "
-        "name; all multisets of 2 (quick: on 16 documents; thorough: on all, and all multisets of 3) over {bare, 0, entity lines, entity "
+        "description) = 230: 20 of them (quick) / all (thorough) for the multi-location sweeps. Per document: every single line 0..last+3 and the bare "
+        "name; all multisets of 2 (quick: on 20 documents; thorough: on all, and all multisets of 3) over {bare, 0, entity lines, entity "
         "lines +/-1}; two-file lists in grouped and interleaved order; the same through @listfile (other directory, "
         "relative entries, comments, blank lines, padding) and with absolute paths. Every selection is observed twice "
         "(should_skip after parse_features; executed step functions + status after a real run). A single location "
@@ -47,6 +48,7 @@ ASSUMPTIONS = [
     "entity 'starts at' its keyword line (tag lines above a keyword belong, by the nearest-above rule, to the previous entity)",
     "lines above the first entity of a file (language comment, feature tags) are not constrained by the statement: only 'does not raise' is demanded there",
     "an @setup/@teardown scenario that is not addressed is demanded to RUN (the statement only says it is not skipped)",
+    "a scenario is an @setup/@teardown scenario by its OWN tags (outline rows: the generated scenario's tags, i.e. outline + examples-block tags); tags inherited from the feature or a rule do not exempt the scenarios below from being skipped",
     "a file named in two non-adjacent positions of a location list may be loaded twice; demanded is only that, per file, the scenarios executed at least once are exactly the union of the selections",
     "scenario names used by the name-selection oracle are the names behave reports (outline rows: default annotation schema)",
     "wildcards in @listfile entries and Windows drive letters in locations are not covered",
@@ -101,10 +103,21 @@ SHAPES = [
     (False, [S(""), S("", ("t1",)), S("Alpha"), S("")]),                       # unnamed 'Scenario:' entries
     (False, [O("Out <a>", [B(2, "E1")]), S("Alpha"), O("Out <a>", [B(2, "E1"), B(1, "E1")])]),   # same generated names
     (True, [S("Alpha"), R("Rule one", [S("Alpha"), S("Beta", ("setup",))]), R("Rule one", [S("Beta"), S("Alpha")])]),
+    # --- @setup/@teardown on CONTAINERS (third element = feature tags). A scenario is a setup/teardown scenario by
+    #     its OWN tags (for outline rows these include the outline's and the examples block's tags); a tag on the
+    #     feature or on a rule does not make the scenarios below it setup/teardown scenarios.
+    (False, [S("Alpha"), S("Beta"), O("Out <a>", [B(2)])], ("setup",)),
+    (False, [S("Alpha"), R("Rule one", [S("Beta"), S("Gamma ray")], ("teardown",)),
+             R("Rule two", [S("Omega"), O("Out <a>", [B(1)])], ("setup", "r2"), True)]),
+    (False, [S("Alpha"), O("Out <a>", [B(2, "E1", ("setup",)), B(2, "E2")]), O("Other <a>", [B(1)], ("teardown",)),
+             S("Omega")]),
+    (True, [R("Rule one", [S("Alpha"), S("Beta", ("setup",))]), R("Rule two", [S("Gamma ray")], ("r1",))],
+     ("ft9", "teardown")),
 ]
 N_GAPS = 5
 N_HEADS = 2
-QUICK_DOCS = [(s, s % N_GAPS, s % N_HEADS) for s in (0, 1, 3, 4, 6, 7, 8, 9, 10, 11, 12, 14, 15, 16, 17, 18)]
+QUICK_DOCS = [(s, s % N_GAPS, s % N_HEADS) for s in (0, 1, 3, 4, 6, 7, 8, 9, 10, 11, 12, 14, 15, 16, 17, 18, 19, 20, 21,
+                                                             22)]
 ALL_DOCS = [(s, g, h) for s in range(len(SHAPES)) for g in range(N_GAPS) for h in range(N_HEADS)]
 
 # layout table: pre = lines before an entity's tag block, mid = between tag line(s) and keyword,
@@ -130,7 +143,8 @@ def render(dockey):
     """(shape, gap, head) -> Doc.   Doc.ents = sorted [(line, kind, frozenset(scenario lines))];
     Doc.scen = {line: (name_template_or_name, tags, kind)}; kinds: F R O row S"""
     shape, gap, head = dockey
-    has_bg, items = SHAPES[shape]
+    has_bg, items = SHAPES[shape][:2]
+    ftags = SHAPES[shape][2] if len(SHAPES[shape]) > 2 else ()
     lay = LAYOUTS[gap]
     out = []
 
@@ -220,6 +234,8 @@ def render(dockey):
         emit(0, "# language: en")
         emit(0, "@ft1")
         emit(0, "@ft2 @ft3")
+    if ftags:
+        emit(0, " ".join("@" + t for t in ftags))
     fline = emit(0, "Feature: Feature %d" % shape)
     if head:
         emit(1, "free text describing")
@@ -888,7 +904,7 @@ def run(ctx):
     two_q = [two[3], two[5], two[11]]
     ctx.bounds = {"documents": len(ALL_DOCS), "single_lines": "0..last+3 and bare name, all %d documents" % len(ALL_DOCS),
                   "pairs": "all multisets of 2 over {bare,0,entity lines,+/-1,last+1} on %d documents" % len(pair_docs),
-                  "triples": "none (quick)" if ctx.quick else "all multisets of 3 over the same set on all documents (real run on the 16 quick documents, should_skip only on the rest)",
+                  "triples": "none (quick)" if ctx.quick else "all multisets of 3 over the same set on all documents (real run on the 20 quick documents, should_skip only on the rest)",
                   "two_file_pairs": len(two_q) if ctx.quick else len(two),
                   "listfile_styles": list(LISTFILE_STYLES)}
 
